@@ -34,6 +34,7 @@ type Out struct {
 	SimMs      int64            `json:"sim_ms,omitempty"`
 	Sample     interface{}      `json:"sample,omitempty"`
 	Trace      string           `json:"trace,omitempty"` // event-log digest (determinism self-test)
+	Schedule   []int            `json:"schedule,omitempty"` // recorded scheduling choices of a concurrent run
 }
 
 // Check describes one property's check.
@@ -164,6 +165,10 @@ func Worker(c *Check, seed uint64, tier string, start, stride, count int, deadli
 		case out := <-done:
 			m := workerMsg{Run: i, Out: out, Digest: PlanDigest(p)}
 			if len(out.Violations) > 0 || out.Foreign != nil {
+				if out.Schedule != nil && !p.UseSchedule {
+					// make the schedule explicit so that it can be replayed and minimised
+					p.Schedule, p.UseSchedule = out.Schedule, true
+				}
 				m.Plan = p
 			}
 			send(m)
@@ -505,6 +510,11 @@ func Coordinate(c *Check, tier string, self string) int {
 	_ = os.MkdirAll(filepath.Join(Root(), "replays"), 0o755)
 	for _, sig := range sigs {
 		rec := a.vios[sig]
+		if rec.v.Symptom == "race" && rec.v.Site == "" {
+			// a race report without a frame of the code under test is a defect of the harness itself
+			a.infra = append(a.infra, "race report outside the code under test: "+tail(rec.v.Detail, 1500))
+			continue
+		}
 		matched := ""
 		for _, f := range findings {
 			if f.Kind == "finding" && f.Prop == c.ID && MatchSig(f.Sig, sig) {
